@@ -22,6 +22,9 @@ def parse(filename):
 
 def patch(nodes, patch_dict):
     for idx, node in enumerate(nodes):
+        if isinstance(node, model.Include):
+            # an included file is patched when it is parsed; its name (the file stem) is not a node name
+            continue
         patches = patch_dict.get(node.name)
         if patches:
             nodes[idx] = _apply(node, patches)
